@@ -75,6 +75,8 @@ def ty_str(t):
         return "(List %s)" % ty_str(t[1])
     if t[0] == "set":
         return "(List %s)" % ty_str(t[1])     # a Python set, kept duplicate-free by `pySetAdd`
+    if t[0] == "tab3":
+        return "Tab3"                          # a numpy int64 array of shape (a, b, 3)
     raise Unsupported("type " + repr(t))
 
 
@@ -295,6 +297,10 @@ class FnTr:
             for x in e.elts:
                 t = ty_join(t, self.etype(x))
             return ("list", t)
+        if isinstance(e, ast.Call) and ast.unparse(e.func) == "np.zeros":
+            return ("tab3",)
+        if isinstance(e, ast.Subscript) and self.etype(e.value) == ("tab3",):
+            return "Int"
         if isinstance(e, ast.Subscript):
             bt = self.etype(e.value)
             if bt is not None and not isinstance(bt, str) and bt[0] == "opt":
@@ -380,6 +386,21 @@ class FnTr:
             return "(" + ", ".join(self.expr(x) for x in e.elts) + ")"
         if isinstance(e, ast.List):
             return "[" + ", ".join(self.expr(x) for x in e.elts) + "]"
+        if isinstance(e, ast.Call) and ast.unparse(e.func) == "np.zeros":
+            shp = e.args[0] if e.args else None
+            kws = {k.arg: ast.unparse(k.value) for k in e.keywords}
+            if not (isinstance(shp, ast.Tuple) and len(shp.elts) == 3 and isinstance(shp.elts[2], ast.Constant)
+                    and shp.elts[2].value == 3 and kws == {"dtype": "np.int64"}):
+                raise Unsupported("np.zeros of an unexpected shape / dtype")
+            return "(← tab3Zeros %s %s)" % (self.expr(shp.elts[0], "num"), self.expr(shp.elts[1], "num"))
+        if isinstance(e, ast.Subscript) and self.etype(e.value) == ("tab3",):
+            ix = e.slice
+            if not (isinstance(ix, ast.Tuple) and len(ix.elts) == 3 and isinstance(ix.elts[2], ast.Constant)
+                    and ix.elts[2].value in (0, 1, 2)):
+                raise Unsupported("array access of an unexpected form")
+            proj = [".1", ".2.1", ".2.2"][ix.elts[2].value]
+            return "(← tab3Get %s %s %s)%s" % (self.expr(e.value), self.expr(ix.elts[0], "num"),
+                                               self.expr(ix.elts[1], "num"), proj)
         if isinstance(e, ast.Subscript):
             bt = self.etype(e.value)
             base = self.expr(e.value, "num")
@@ -458,7 +479,7 @@ class FnTr:
                 return True
             if isinstance(x, ast.Subscript):
                 bt = self.etype(x.value)
-                if self.is_opt(bt) or (bt is not None and not isinstance(bt, str) and bt[0] == "list"):
+                if self.is_opt(bt) or (bt is not None and not isinstance(bt, str) and bt[0] in ("list", "tab3")):
                     return True
             if isinstance(x, (ast.Name, ast.Attribute)):
                 k = self.vkey(x)
@@ -566,6 +587,8 @@ class FnTr:
                     tg = [x.target]
                 for t in tg:
                     for y in (t.elts if isinstance(t, ast.Tuple) else [t]):
+                        if isinstance(y, ast.Subscript):
+                            y = y.value
                         k = self.vkey(y)
                         if k is not None and k != "_" and k not in s:
                             s.append(k)
@@ -750,6 +773,24 @@ class FnTr:
             if isinstance(st, ast.Assign) and len(st.targets) == 1 and isinstance(st.value, ast.Call) and \
                     isinstance(st.value.func, ast.Name) and st.value.func.id in self.local_fns:
                 self.inline_call(st.value.func.id, st.value, st.targets[0], ind, defined, out)
+                continue
+            if isinstance(st, ast.Assign) and len(st.targets) == 1 and isinstance(st.targets[0], ast.Subscript) \
+                    and self.etype(st.targets[0].value) == ("tab3",):
+                tg = st.targets[0]
+                arr = self.vkey(tg.value)
+                ix = tg.slice
+                if not (isinstance(ix, ast.Tuple) and len(ix.elts) == 3):
+                    raise Unsupported("array assignment of an unexpected form")
+                full = lambda z: isinstance(z, ast.Slice) and z.lower is None and z.upper is None and z.step is None  # noqa: E731
+                if full(ix.elts[0]) and full(ix.elts[1]) and isinstance(ix.elts[2], ast.Constant):
+                    out.append("%s%s := tab3Fill %s %d %s" % (ind, self.vn(arr), self.vn(arr), ix.elts[2].value,
+                                                               self.expr(st.value, "num")))
+                elif full(ix.elts[2]) and isinstance(st.value, ast.Tuple) and len(st.value.elts) == 3:
+                    out.append("%s%s := (← tab3Set %s %s %s %s)" % (
+                        ind, self.vn(arr), self.vn(arr), self.expr(ix.elts[0], "num"), self.expr(ix.elts[1], "num"),
+                        "(" + ", ".join(self.expr(z, "num") for z in st.value.elts) + ")"))
+                else:
+                    raise Unsupported("array assignment of an unexpected form (line %d)" % st.lineno)
                 continue
             if isinstance(st, (ast.Assign, ast.AugAssign)):
                 if isinstance(st, ast.Assign):
@@ -1244,6 +1285,7 @@ FUNCTIONS = [
     ("mixed.py", "optimal_steps_mixed", "optimal_steps_mixed", {}, {"recursive": True, "cache_step": True}),
     ("mixed.py", "mixed_step_memoization", "mixed_step_memoization", {}, {"recursive": True, "cache_step": True}),
     ("hrevolve_sequences/basic_functions.py", "argmin", "argmin", {"list": ("list", "Int")}, {}),
+    ("mixed.py", "mixed_steps_tabulation", "mixed_steps_tabulation", {}, {}),
 ]
 
 ENUMS = [("schedule.py", "StepType"), ("schedule.py", "StorageType")]
@@ -1345,7 +1387,19 @@ def generate(repo):
         status["cache_step"] = "ok" if cache_ok else "untranslatable: cache_step no longer has the expected shape"
     except (Unsupported, SyntaxError, OSError) as e:
         status["cache_step"] = "untranslatable: %s" % e
-    ctx = Ctx(enums, {}, {})
+    consts = {}
+    try:
+        for st in tree("mixed.py").body:
+            if isinstance(st, ast.Assign) and len(st.targets) == 1 and isinstance(st.targets[0], ast.Name) \
+                    and isinstance(st.value, ast.Call) and isinstance(st.value.func, ast.Name) \
+                    and st.value.func.id == "int" and len(st.value.args) == 1 \
+                    and isinstance(st.value.args[0], ast.Attribute) and isinstance(st.value.args[0].value, ast.Name) \
+                    and st.value.args[0].value.id in enums:
+                en, mem = st.value.args[0].value.id, st.value.args[0].attr
+                consts[st.targets[0].id] = ("(%s.toInt %s.%s)" % (en, en, mem.lower()), "Int")
+    except (OSError, SyntaxError):
+        pass
+    ctx = Ctx(enums, {}, consts)
     for f, qual, lean, ptypes, opts in FUNCTIONS:
         try:
             node = find_def(tree(f), qual)
